@@ -83,10 +83,17 @@ class _Expr(ast.expr):
 class Opaque(Child):
     """spec.flow.Child + source span [start, end) and, for expressions, an arbitrary read position inside it"""
 
-    def __init__(self, kind, label):
+    def __init__(self, kind, label, effects=False):
         Child.__init__(self, kind, label)
+        self.effects = effects or kind == 'stmts'
+        if effects and kind == 'expr':
+            # an expression that may bind (walrus) and may end in a new region (a comprehension inside it)
+            self.tr = Tr(self.G, self.P)
         self.start, self.end, self.read = Pos(label + '.start'), Pos(label + '.end'), Pos(label + '.read')
         self.summary_at = Pos(label + '.effect')
+
+    def facts(self):
+        return [z3.Not(z3.IsMember(BOT, self.G))] if self.effects else []
 
     def node(self):
         nd = (_Stmts if self.kind == 'stmts' else _Expr)()
@@ -135,7 +142,19 @@ def make_visitor_class():
                 self.flow.scope.flow = nf
 
         def visit__Expr(self, node):
-            node.child.visits.append(('expr', self.flow))
+            c = node.child
+            c.visits.append(('expr', self.flow))
+            if c.effects:
+                # induction hypothesis for an expression with effects: same two representations as a statement list
+                if core.choice(2) == 0:
+                    sm = Summary(c)
+                    c.repr = ('summary', sm, self.flow)
+                    U.insert_loc(self.flow._names, sm)
+                else:
+                    nf = self.top.add_flow(SummaryFlow(c, self.flow))
+                    c.repr = ('region', nf, self.flow)
+                    self.flow = nf
+                    self.flow.scope.flow = nf
 
     class SummaryFlow(S.Flow):
         def __init__(self, child, entry):
@@ -244,8 +263,8 @@ class Skeleton(object):
         self.facts = []
         self.children = []
 
-    def child(self, kind, label):
-        c = Opaque(kind, label)
+    def child(self, kind, label, effects=False):
+        c = Opaque(kind, label, effects)
         self.children.append(c)
         self.facts.extend(c.span_facts())
         return c
@@ -305,7 +324,7 @@ def entry_view(g, c, visit_index=0):
     """the table the opaque child c starts from: view of the region it was visited in, at its start position,
     without its own effects"""
     kind, Fl = c.visits[visit_index]
-    if c.kind == 'stmts':
+    if c.effects:
         rp = c.repr
         excl = rp[1] if rp[0] == 'summary' else None
         return g.view_at(Fl, c.start.t, exclude=excl)
@@ -349,10 +368,11 @@ def all_facts(sk):
 
 @harness(['C02', 'C03', 'C01', 'C13'], 'supp.nast.extract_visitor.visit_If', twins=('spec-else-not-joined',))
 def v_if(run, twin=None):
-    """if t: B else: O   —  t, B, O start from V; exit = T_B(V) | T_O(V)"""
+    """if t: B else: O   —  t starts from V; B and O from T_t(V) (t may bind: walrus, and may end in a new region: comprehension);
+    exit = T_B(T_t V) | T_O(T_t V)"""
     def build():
         sk = Skeleton()
-        t, b, o = sk.child('expr', 'test'), sk.child('stmts', 'body'), sk.child('stmts', 'orelse')
+        t, b, o = sk.child('expr', 'test', effects=True), sk.child('stmts', 'body'), sk.child('stmts', 'orelse')
         kw = Pos('if')
         sk.order(kw, t.start)
         sk.facts += [le(t.end.t, b.start.t), le(b.end.t, o.start.t)]
@@ -362,18 +382,19 @@ def v_if(run, twin=None):
 
     def check(sk, g, v, path):
         fs = all_facts(sk)
-        check_entries(sk, g, path, [(sk.t, ID), (sk.b, ID), (sk.o, ID)], fs)
-        ex = sk.b.tr.join(sk.o.tr) if not twin else sk.b.tr
+        check_entries(sk, g, path, [(sk.t, ID), (sk.b, sk.t.tr), (sk.o, sk.t.tr)], fs)
+        ex = sk.t.tr.then(sk.b.tr.join(sk.o.tr) if not twin else sk.b.tr)
         check_exit(sk, g, v, path, ex, fs)
     run_skeleton(build, check)
 
 
 @harness(['C02', 'C03', 'C01', 'C13'], 'supp.nast.extract_visitor.visit_While')
 def v_while(run):
-    """while t: B else: O  —  loop head H = lfp X. V | T_B(X); t, B and O start from H; exit = T_O(H)"""
+    """while t: B else: O  —  loop head H = lfp X. V | T_B(T_t(X)); t starts from H; B and O from T_t(H) (t may bind and may end in a new
+    region); exit = T_O(T_t(H))"""
     def build():
         sk = Skeleton()
-        t, b, o = sk.child('expr', 'test'), sk.child('stmts', 'body'), sk.child('stmts', 'orelse')
+        t, b, o = sk.child('expr', 'test', effects=True), sk.child('stmts', 'body'), sk.child('stmts', 'orelse')
         kw = Pos('while')
         sk.order(kw, t.start)
         sk.facts += [le(t.end.t, b.start.t), le(b.end.t, o.start.t)]
@@ -383,9 +404,10 @@ def v_while(run):
 
     def check(sk, g, v, path):
         fs = all_facts(sk)
-        H = loop_head(ID, sk.b.tr)
-        check_entries(sk, g, path, [(sk.t, H), (sk.b, H), (sk.o, H)], fs)
-        check_exit(sk, g, v, path, H.then(sk.o.tr), fs)
+        H = loop_head(ID, sk.t.tr.then(sk.b.tr))
+        Ht = H.then(sk.t.tr)
+        check_entries(sk, g, path, [(sk.t, H), (sk.b, Ht), (sk.o, Ht)], fs)
+        check_exit(sk, g, v, path, Ht.then(sk.o.tr), fs)
     run_skeleton(build, check)
 
 
@@ -411,7 +433,7 @@ def v_for(run):
     """for x in e: B else: O  —  e starts from V; H = lfp X. V | T_B(X[x:=d]); B starts from H[x:=d]; O from H; exit T_O(H)"""
     def build():
         sk = Skeleton()
-        e, b, o = sk.child('expr', 'iter'), sk.child('stmts', 'body'), sk.child('stmts', 'orelse')
+        e, b, o = sk.child('expr', 'iter', effects=True), sk.child('stmts', 'body'), sk.child('stmts', 'orelse')
         kw, px = Pos('for'), Pos('target')
         sk.order(kw, px, e.start)
         sk.facts += [le(e.end.t, b.start.t), le(b.end.t, o.start.t)]
@@ -428,7 +450,7 @@ def v_for(run):
             return
         d = g.def_of(bs[0][1])
         bx = bind(d, g.n == g.ident('x'))
-        H = loop_head(ID, bx.then(sk.b.tr))
+        H = loop_head(sk.e.tr, bx.then(sk.b.tr))
         check_entries(sk, g, path, [(sk.e, ID), (sk.b, H.then(bx)), (sk.o, H)], fs)
         check_exit(sk, g, v, path, H.then(sk.o.tr), fs)
     run_skeleton(build, check)
@@ -507,7 +529,7 @@ def v_assign(run):
     def build():
         patch_expr_end()
         sk = Skeleton()
-        e = sk.child('expr', 'value')
+        e = sk.child('expr', 'value', effects=True)
         kw = Pos('assign')
         (x, y, z, u, w), ps = targets_of(sk, ['x', 'y', 'z', 'u', 'w'], kw)
         sk.facts += [lt(ps[-1].t, e.start.t)]
@@ -524,7 +546,10 @@ def v_assign(run):
     def check(sk, g, v, path):
         fs = all_facts(sk)
         check_entries(sk, g, path, [(sk.e, ID)], fs)
-        tr = ID
+        # domain: the value expression does not itself bind one of the statement's targets (x = (x := 1) is outside C02/C03)
+        is_target = z3.Or(*[g.n == g.ident(t.id) for t in sk.targets])
+        fs = fs + [z3.Implies(is_target, z3.And(sk.e.G == EMPTY, sk.e.P))]
+        tr = sk.e.tr
         for t in sk.targets:
             bs = binding_for(g, None, t)
             prove('target-%s-bound-once[C01]' % t.id, len(bs) == 1, clause='each Name target creates one binding declared at the target', path=path)
